@@ -10,6 +10,7 @@ import (
 	"github.com/anishathalye/porcupine"
 	"github.com/enbility/spine-go/api"
 	"github.com/enbility/spine-go/model"
+	"github.com/enbility/spine-go/util"
 
 	"verifharness/rig"
 )
@@ -24,6 +25,10 @@ import (
 // change events, BindingsOnFeature(f) <= 1 and equal to the reference, Bindings(peer) exact with distinct
 // ids, HasLocalFeatureRemoteBinding for every (server, peer, client) combination.
 //
+// Foreign device parts (both parts): a share of the requests carries, in the client and/or server address, the device
+// of somebody else (another connected peer, the local device, nobody). Whatever the stack answers: exactly one result,
+// the bindings and ids of every OTHER connection unchanged; for the sender's own binding see the assumptions.
+//
 // Duel part (plain and -race): 2-4 connections bind the same server feature from different goroutines with
 // a rendezvous at AddBinding.afterCheck (between the single-binding check and the insertion); also
 // unbind || bind || bind and bind/unbind/bind sequences under jitter. Invariants at quiescence and porcupine
@@ -35,19 +40,24 @@ func init() {
 		Floor: 450,
 		Rule: "sequential case = one World (3 local server features, 2 of them of the same type, 1 local client feature, 3 identically numbered peers with 2 same-typed client features each) and a seeded history of 10-25 operations " +
 			"{bind (valid / server already bound by the same client, another client of the peer, another peer / wrong role / wrong type / unknown entity / unknown feature, device part omitted), " +
-			"unbind (holder / same numbers from another peer / other client of the holder's peer / holder's client on another server / unknown), registry read}; non-trivial if it saw a grant, a rejection of a second binding and a successful unbind. " +
-			"duel case = k in 2..4 connections issuing bind (and unbind) for one server feature concurrently with the window after the single-binding check forced by a rendezvous or jittered; non-trivial if the window was forced (all k binds held between check and insertion) or, for the jitter variants, if at least two operations overlapped, and porcupine decided. " +
+			"unbind (holder / same numbers from another peer / other client of the holder's peer / holder's client on another server / unknown), registry read}; a fifth of the requests and half of the deletes that use the numbers of another peer's binding carry a FOREIGN device part " +
+			"in the client and/or server address (client address: the device of another connected peer - preferably the holder -, of the local device or of nobody; server address: the device of a peer or of nobody); non-trivial if it saw a grant, a rejection of a second binding and a successful unbind. " +
+			"duel case = k in 2..4 connections issuing bind (and unbind) for one server feature concurrently with the window after the single-binding check forced by a rendezvous or jittered; in every fifth case ('foreign') peer 0 holds the contested binding and a bystander binding on a second server feature, " +
+			"and the other connections send deletes and requests that name peer 0's (or another) device with numbers that exist on every peer, mixed with ordinary calls; non-trivial if the window was forced (all k binds held between check and insertion) or, for the jitter variants, if at least two operations overlapped, and porcupine decided. " +
 			"distinct = hash of operation shapes and outcomes (sequential) / variant, k, clients and hook trace (duel).",
 		Assumptions: []string{
 			"message handling is synchronous, so results, events and registry are complete when the call into the stack has returned",
 			"requests that omit the device part of an address are judged by the entity/feature part on the sender's resp. the local tree",
+			"a request whose client (server) address names a device other than the sender (the local device): the statement does not say whether that device part is ignored - the stack's feature lookups ignore it - or makes the request invalid. " +
+				"If the entity/feature numbers justify the request, both outcomes are accepted for the SENDER's own binding (result, event and registry must agree); if they do not, it must be refused; in no case may it add, remove or renumber a binding of another connection " +
+				"(pinned tree: bind requests are served by the numbers; a delete compares the client device literally and is refused; a foreign server device is ignored)",
 			"NodeManagement (special role) is not used as a binding target and special-role or Generic client features are not generated: the statement does not fix their treatment",
 			"a rendezvous that expires only means 'window not forced' (counted); it never decides a verdict",
 		},
 		Parts: []rig.Part{
 			{Name: "seq", Cases: func(t rig.Tier) int { return map[rig.Tier]int{rig.Quick: 1200, rig.Thorough: 48000}[t] }, Run: c09Seq, Procs: 2},
-			{Name: "conc-duel", Cases: func(t rig.Tier) int { return map[rig.Tier]int{rig.Quick: 900, rig.Thorough: 36000}[t] }, Run: c09Duel, Procs: 4, Quiet: 90 * time.Second},
-			{Name: "conc-duel-race", Race: true, Cases: func(t rig.Tier) int { return map[rig.Tier]int{rig.Quick: 320, rig.Thorough: 6400}[t] }, Run: c09Duel, Procs: 4, Quiet: 120 * time.Second},
+			{Name: "conc-duel", Cases: func(t rig.Tier) int { return map[rig.Tier]int{rig.Quick: 1125, rig.Thorough: 45000}[t] }, Run: c09Duel, Procs: 4, Quiet: 90 * time.Second},
+			{Name: "conc-duel-race", Race: true, Cases: func(t rig.Tier) int { return map[rig.Tier]int{rig.Quick: 400, rig.Thorough: 8000}[t] }, Run: c09Duel, Procs: 4, Quiet: 120 * time.Second},
 		},
 	})
 }
@@ -158,6 +168,36 @@ func c09Seq(c *rig.Ctx) {
 		}
 	}
 	pairKey := func(e c08Entry) string { return cw.pfeat[e.cli].Key(w.Peers[e.peer]) + ">" + cw.locals[e.srv].Key() }
+	// otherHolder: the peer other than pi that holds the binding (cli, srv) with the same numbers, or -1
+	otherHolder := func(pi int, cli, srv string) int {
+		if h, ok := binds[srv]; ok && h.peer != pi && h.cli == cli {
+			return h.peer
+		}
+		return -1
+	}
+	// bindSnapOthers renders the bindings (with their ids) of every connection but that of peer pi
+	bindSnapOthers := func(pi int) map[string]string {
+		snap := map[string]string{}
+		for qi, q := range w.Peers {
+			if qi == pi {
+				continue
+			}
+			var es []string
+			for _, en := range bm.Bindings(q.RD) {
+				es = append(es, fmt.Sprintf("#%d %s>%s", en.Id, rkFeatKey(en.ClientFeature), rkFeatKey(en.ServerFeature)))
+			}
+			sort.Strings(es)
+			snap[fmt.Sprintf("peer %d", qi)] = strings.Join(es, " ")
+		}
+		if cw.mute != nil { // it never binds anything
+			var es []string
+			for _, en := range bm.Bindings(cw.mute.RD) {
+				es = append(es, fmt.Sprintf("#%d %s>%s", en.Id, rkFeatKey(en.ClientFeature), rkFeatKey(en.ServerFeature)))
+			}
+			snap["the mute peer"] = strings.Join(es, " ")
+		}
+		return snap
+	}
 	judgeRegistry := func(what string) {
 		// at most one binding per server feature, and exactly the reference holder
 		for _, s := range c09Servers {
@@ -300,23 +340,53 @@ func c09Seq(c *rig.Ctx) {
 				}
 			}
 			ca, sa := cw.cliAddr(p, cli), cw.srvAddr(srv)
+			omitC, omitS := r.Intn(4) == 0, r.Intn(4) == 0
+			fdim, ftag, fdesc := "", "", ""
+			if r.Intn(5) == 0 { // a device part that names somebody else
+				ca, sa, fdim, ftag, fdesc = c08Foreign(r, w, pi, otherHolder(pi, cli, srv), cw.muteDevs(), ca, sa)
+			}
 			omit := ""
-			if r.Intn(4) == 0 {
+			if omitC && !strings.Contains(fdim, "client") {
 				ca = rkStripDevice(ca)
 				omit += "-cdev"
 			}
-			if r.Intn(4) == 0 {
+			if omitS && !strings.Contains(fdim, "server") {
 				sa = rkStripDevice(sa)
 				omit += "-sdev"
 			}
 			verdict, reason := c09Expect(cw, binds, cli, srv, typ)
-			log("#%d bind peer%d %s(%s) -> %s(%s) type=%s kind=%s%s expect=%s(%s)", step, pi, cli, rkKey(ca), srv, rkKey(sa), typ, kind, omit, verdict, reason)
+			sreason := reason
+			if fdim != "" {
+				// the statement does not say whether a foreign device part is ignored (the feature lookups ignore it) or makes
+				// the request invalid: a request that the entity/feature numbers justify may be granted (as the sender's own
+				// binding) or refused; one that they do not justify must be refused
+				if verdict == "grant" {
+					verdict = "either"
+				}
+				sreason = ftag + ":" + reason
+			}
+			log("#%d bind peer%d %s(%s) -> %s(%s) type=%s kind=%s%s %s expect=%s(%s)", step, pi, cli, rkKey(ca), srv, rkKey(sa), typ, kind, omit, fdesc, verdict, sreason)
 			takeAll()
 			w.Core.Take()
+			var othersBefore map[string]string
+			if fdim != "" {
+				othersBefore = bindSnapOthers(pi)
+			}
 			mc := p.Bind(ca, sa, typ)
 			c.Events(1)
-			granted := judgeResult("bind/"+reason, pi, mc, takeAll(), verdict)
+			outs := takeAll()
+			if fdim != "" {
+				if how, detail := c08SnapDiff(othersBefore, bindSnapOthers(pi)); how != "" {
+					ok, bad, _ := rkResultOf(outs[pi], mc)
+					fail("bind/"+fdim+"/"+strings.Replace(how, "entry", "binding", 1), "a binding request of peer %d (%s; answered with %d success and %d error results) changed the bindings of another connection: %s", pi, fdesc, ok, bad, detail)
+					break // the narrow signature says it all
+				}
+			}
+			granted := judgeResult("bind/"+sreason, pi, mc, outs, verdict)
 			hist[len(hist)-1] += fmt.Sprintf(" -> granted=%v", granted)
+			if fdim != "" {
+				c08CountForeign(c, "bind", ftag, fdesc, verdict != "reject", otherHolder(pi, cli, srv) >= 0, granted)
+			}
 			_, knownC := cw.pfeat[cli]
 			_, knownS := cw.locals[srv]
 			if granted {
@@ -335,7 +405,7 @@ func c09Seq(c *rig.Ctx) {
 				srvKey = cw.locals[srv].Key()
 			}
 			judgeEvents("bind", api.ElementChangeAdd, granted, pi, cliKey, srvKey)
-			judgeRegistry("bind/" + reason)
+			judgeRegistry("bind/" + sreason)
 			c.Count("bind:"+reason, 1)
 			if reason == "already-bound" {
 				c.Count("bind:"+kind, 1)
@@ -387,12 +457,18 @@ func c09Seq(c *rig.Ctx) {
 			}
 			p = w.Peers[pi]
 			ca, sa := cw.cliAddr(p, cli), cw.srvAddr(srv)
+			omitC, omitS := r.Intn(3) == 0, r.Intn(3) == 0
+			fdim, ftag, fdesc := "", "", ""
+			oh := otherHolder(pi, cli, srv)
+			if r.Intn(5) == 0 || (oh >= 0 && r.Intn(2) == 0) { // a device part that names somebody else, preferably the peer that holds this pair
+				ca, sa, fdim, ftag, fdesc = c08Foreign(r, w, pi, oh, cw.muteDevs(), ca, sa)
+			}
 			omit := ""
-			if r.Intn(3) == 0 {
+			if omitC && !strings.Contains(fdim, "client") {
 				ca = rkStripDevice(ca)
 				omit += "-cdev"
 			}
-			if r.Intn(3) == 0 {
+			if omitS && !strings.Contains(fdim, "server") {
 				sa = rkStripDevice(sa)
 				omit += "-sdev"
 			}
@@ -402,13 +478,37 @@ func c09Seq(c *rig.Ctx) {
 			if present {
 				verdict, reason = "grant", "present"
 			}
-			log("#%d unbind peer%d %s(%s) -> %s(%s) kind=%s%s expect=%s", step, pi, cli, rkKey(ca), srv, rkKey(sa), kind, omit, verdict)
+			sreason := reason
+			if fdim != "" {
+				// see bind: the sender's own binding may or may not go; a binding the sender does not hold must stay,
+				// whoever the device part names
+				if verdict == "grant" {
+					verdict = "either"
+				}
+				sreason = ftag + ":" + reason
+			}
+			log("#%d unbind peer%d %s(%s) -> %s(%s) kind=%s%s %s expect=%s", step, pi, cli, rkKey(ca), srv, rkKey(sa), kind, omit, fdesc, verdict)
 			takeAll()
 			w.Core.Take()
+			var othersBefore map[string]string
+			if fdim != "" {
+				othersBefore = bindSnapOthers(pi)
+			}
 			mc := p.Unbind(ca, sa)
 			c.Events(1)
-			removed := judgeResult("unbind/"+reason, pi, mc, takeAll(), verdict)
+			outs := takeAll()
+			if fdim != "" {
+				if how, detail := c08SnapDiff(othersBefore, bindSnapOthers(pi)); how != "" {
+					ok, bad, _ := rkResultOf(outs[pi], mc)
+					fail("unbind/"+fdim+"/"+strings.Replace(how, "entry", "binding", 1), "a binding delete of peer %d (%s; answered with %d success and %d error results) changed the bindings of another connection: %s", pi, fdesc, ok, bad, detail)
+					break // the narrow signature says it all
+				}
+			}
+			removed := judgeResult("unbind/"+sreason, pi, mc, outs, verdict)
 			hist[len(hist)-1] += fmt.Sprintf(" -> removed=%v", removed)
+			if fdim != "" {
+				c08CountForeign(c, "unbind", ftag, fdesc, verdict != "reject", oh >= 0, removed)
+			}
 			if removed {
 				if present {
 					delete(binds, srv)
@@ -423,7 +523,7 @@ func c09Seq(c *rig.Ctx) {
 				srvKey = l.Key()
 			}
 			judgeEvents("unbind", api.ElementChangeRemove, removed, pi, cliKey, srvKey)
-			judgeRegistry("unbind/" + reason)
+			judgeRegistry("unbind/" + sreason)
 			c.Count("unbind:"+reason, 1)
 			if omit != "" {
 				c.Count("unbind:device-omitted"+omit, 1)
@@ -529,6 +629,19 @@ var c09Model = porcupine.Model{
 				return o.OK, ""
 			}
 			return !o.OK, s
+		case "fbind":
+			// a request with a foreign device part whose numbers name the sender's own feature: the statement does not say
+			// whether it is served; if it is acknowledged the feature must have been unbound and is the sender's now
+			if !o.OK {
+				return true, s
+			}
+			return s == "", i.Cli
+		case "funbind":
+			// ... and an acknowledged delete must have removed the sender's own binding
+			if !o.OK {
+				return true, s
+			}
+			return s == i.Cli, ""
 		case "snapshot":
 			return o.Holder == s, s
 		}
@@ -548,6 +661,8 @@ type c09Rec struct {
 	in        c09In
 	call, ret int64
 	mc        model.MsgCounterType
+	foreign   string // which device parts were foreign
+	onOther   bool   // aimed at the bystander binding's server feature (not part of the register model)
 }
 
 func c09Duel(c *rig.Ctx) {
@@ -560,7 +675,7 @@ func c09Duel(c *rig.Ctx) {
 	other := e1.GetOrAddFeature(model.FeatureTypeTypeIdentification, model.RoleTypeServer) // a bystander binding that must survive
 	other.AddFunctionType(model.FunctionTypeIdentificationListData, true, true)
 	clients := []rkPeerFeat{c08PeerFeats[1], c08PeerFeats[2], c08PeerFeats[3]} // a [1]/1, b [1,1]/1 (DeviceClassification), c [1]/2 (Identification)
-	variant := []string{"bind-k", "bind-k", "unbind-bind-bind", "sequences-jitter"}[c.Index%4]
+	variant := []string{"bind-k", "bind-k", "unbind-bind-bind", "sequences-jitter", "foreign"}[c.Index%5]
 	k := 2 + r.Intn(3)
 	if variant == "unbind-bind-bind" {
 		k = 3
@@ -585,52 +700,131 @@ func c09Duel(c *rig.Ctx) {
 
 	var mu sync.Mutex
 	var recs []c09Rec
-	do := func(gor, pi int, op string, cl rkPeerFeat) {
+	type step struct {
+		op      string // bind | unbind | fbind | funbind (f: a device part of the request names somebody else)
+		cl      rkPeerFeat
+		fc, fs  string // foreign device part of the client / server address ("" = the real one)
+		onOther bool   // aimed at the bystander binding (peer 0's client c on the other server feature)
+	}
+	doStep := func(gor, pi int, st step) {
 		p := w.Peers[pi]
-		rec := c09Rec{gor: gor, peer: pi, in: c09In{Op: op, Cli: cl.Key(p)}}
+		rec := c09Rec{gor: gor, peer: pi, in: c09In{Op: st.op, Cli: st.cl.Key(p)}, onOther: st.onOther}
+		ca, sa, typ := st.cl.Addr(p, true), srv.Address(), model.FeatureTypeTypeDeviceClassification
+		if st.onOther {
+			sa, typ = other.Address(), model.FeatureTypeTypeIdentification
+		}
+		if st.fc != "" {
+			ca = rig.FA(st.fc, st.cl.Ent, st.cl.Id)
+			rec.foreign += ":client-device"
+		}
+		if st.fs != "" {
+			a := *sa
+			a.Device = util.Ptr(model.AddressDeviceType(st.fs))
+			sa = &a
+			rec.foreign += ":server-device"
+		}
 		rec.call = rig.Seq()
-		if op == "bind" {
-			rec.mc = p.Bind(cl.Addr(p, true), srv.Address(), model.FeatureTypeTypeDeviceClassification)
+		if st.op == "bind" || st.op == "fbind" {
+			rec.mc = p.Bind(ca, sa, typ)
 		} else {
-			rec.mc = p.Unbind(cl.Addr(p, true), srv.Address())
+			rec.mc = p.Unbind(ca, sa)
 		}
 		rec.ret = rig.Seq()
 		mu.Lock()
 		recs = append(recs, rec)
 		mu.Unlock()
 	}
-	type step struct {
-		op string
-		cl rkPeerFeat
-	}
+	do := func(gor, pi int, op string, cl rkPeerFeat) { doStep(gor, pi, step{op: op, cl: cl}) }
 	plans := make([][]step, k)
 	pick := func() rkPeerFeat { return clients[r.Intn(2)] }
 	policy := "rendezvous"
 	switch variant {
 	case "bind-k":
 		for g := 0; g < k; g++ {
-			plans[g] = []step{{"bind", pick()}}
+			plans[g] = []step{{op: "bind", cl: pick()}}
 		}
 	case "unbind-bind-bind":
 		h := pick()
 		do(9, 0, "bind", h) // holder: peer 0
-		plans[0] = []step{{"unbind", h}}
-		plans[1] = []step{{"bind", pick()}}
-		plans[2] = []step{{"bind", pick()}}
+		plans[0] = []step{{op: "unbind", cl: h}}
+		plans[1] = []step{{op: "bind", cl: pick()}}
+		plans[2] = []step{{op: "bind", cl: pick()}}
 		if r.Intn(2) == 0 {
 			policy = "jitter"
+		}
+	case "foreign":
+		// peer 0 holds (in two of three cases) the binding of the contested server feature and always the bystander binding;
+		// the others send deletes and requests whose client address carries the device of peer 0 (or of somebody else)
+		// with entity/feature numbers that exist on every peer, mixed with ordinary requests
+		policy = "jitter"
+		var h *rkPeerFeat
+		if r.Intn(3) > 0 {
+			x := pick()
+			h = &x
+			do(9, 0, "bind", x)
+		}
+		switch {
+		case h == nil:
+			plans[0] = []step{{op: "bind", cl: pick()}}
+		case r.Intn(3) == 0:
+			plans[0] = []step{{op: "unbind", cl: *h}, {op: "bind", cl: *h}}
+		case r.Intn(2) == 0:
+			plans[0] = []step{{op: "unbind", cl: *h}}
+		}
+		fdev := func(g int) string {
+			switch d := r.Intn(10); {
+			case d < 6:
+				return w.Peers[0].Addr
+			case d < 8:
+				return w.Peers[(g+1+r.Intn(nPeers-1))%nPeers].Addr
+			case d < 9:
+				return rig.LocalAddr
+			}
+			return "nowhere"
+		}
+		for g := 1; g < k; g++ {
+			for n := 2 + r.Intn(2); n > 0; n-- {
+				cl := pick()
+				if h != nil && r.Intn(3) > 0 {
+					cl = *h
+				}
+				var st step
+				switch x := r.Intn(10); {
+				case x < 4:
+					st = step{op: "funbind", cl: cl, fc: fdev(g)}
+				case x < 5:
+					st = step{op: "funbind", cl: cl, fs: []string{w.Peers[r.Intn(nPeers)].Addr, "nowhere"}[r.Intn(2)]}
+				case x < 6:
+					st = step{op: "funbind", cl: clients[2], fc: w.Peers[0].Addr, onOther: true}
+				case x < 7:
+					st = step{op: "fbind", cl: cl, fc: fdev(g)}
+				case x < 9:
+					st = step{op: "bind", cl: cl}
+				default:
+					st = step{op: "unbind", cl: cl}
+				}
+				plans[g] = append(plans[g], st)
+			}
 		}
 	default:
 		policy = "jitter"
 		for g := 0; g < k; g++ {
 			cl := pick()
-			plans[g] = []step{{"bind", cl}, {"unbind", cl}, {"bind", cl}}
+			plans[g] = []step{{op: "bind", cl: cl}, {op: "unbind", cl: cl}, {op: "bind", cl: cl}}
 			if r.Intn(2) == 0 {
 				plans[g] = plans[g][:2]
 			}
 		}
 	}
 	w.Core.Take()
+	bystanderSnap := func() string {
+		var es []string
+		for _, en := range bm.BindingsOnFeature(*other.Address()) {
+			es = append(es, fmt.Sprintf("#%d %s>%s", en.Id, rkFeatKey(en.ClientFeature), rkFeatKey(en.ServerFeature)))
+		}
+		return strings.Join(es, " ")
+	}
+	bystanderBefore := bystanderSnap()
 	h := rig.InstallHooks()
 	defer h.Uninstall()
 	const point = "AddBinding.afterCheck"
@@ -655,7 +849,7 @@ func c09Duel(c *rig.Ctx) {
 			h.Role(fmt.Sprintf("p%d", g))
 			<-start
 			for _, s := range plans[g] {
-				do(g, g, s.op, s.cl)
+				doStep(g, g, s)
 			}
 		}(g)
 	}
@@ -703,7 +897,7 @@ func c09Duel(c *rig.Ctx) {
 			c.Violate("duel/result-count", "%s(%s) by peer %d: no result datagram", x.in.Op, x.in.Cli, x.peer)
 		}
 		if x.gor != 9 {
-			if x.in.Op == "bind" {
+			if x.in.Op == "bind" || x.in.Op == "fbind" {
 				concBinds++
 				if res == 1 {
 					okBinds++
@@ -717,8 +911,30 @@ func c09Duel(c *rig.Ctx) {
 				overlap = true
 			}
 		}
+		tgt := ""
+		if x.onOther {
+			tgt = " on the bystander's server feature"
+		}
+		hist = append(hist, fmt.Sprintf("[%d,%d] g%d %s(%s%s)%s -> %v", x.call, x.ret, x.gor, x.in.Op, x.in.Cli, x.foreign, tgt, res == 1))
+		if x.foreign != "" {
+			out := " -> refused"
+			if res == 1 {
+				out = " -> accepted"
+			}
+			c.Count("duel_foreign:"+x.in.Op+x.foreign+map[bool]string{true: ":aimed-at-the-bystander-binding"}[x.onOther]+out, 1)
+		}
+		if x.onOther {
+			// nobody but peer 0 ever holds a binding on that feature: whatever the device part says, the delete must be refused
+			c.Events(1)
+			if res == 1 {
+				c.Violate("duel/foreign/delete-of-a-binding-the-sender-does-not-hold-acknowledged", "%s(%s%s) by peer %d on the bystander's server feature was acknowledged\n  %s", x.in.Op, x.in.Cli, x.foreign, x.peer, strings.Join(hist, "\n  "))
+			}
+			continue
+		}
 		ops = append(ops, porcupine.Operation{ClientId: x.gor, Input: x.in, Call: x.call, Output: c09Out{OK: res == 1}, Return: x.ret})
-		hist = append(hist, fmt.Sprintf("[%d,%d] g%d %s(%s) -> %v", x.call, x.ret, x.gor, x.in.Op, x.in.Cli, res == 1))
+	}
+	if after := bystanderSnap(); after != bystanderBefore {
+		c.Violate("duel/foreign-device/binding-of-other-peer-changed", "the bystander binding of peer 0 was {%s} before the concurrent phase and is {%s} after it; nobody who holds it asked for that\n  %s", bystanderBefore, after, strings.Join(hist, "\n  "))
 	}
 	// quiescence: registry
 	es := bm.BindingsOnFeature(*srv.Address())
@@ -813,7 +1029,7 @@ func c09Duel(c *rig.Ctx) {
 	var sh []string
 	for g := range plans {
 		for _, s := range plans[g] {
-			sh = append(sh, fmt.Sprintf("%d:%s:%s", g, s.op, s.cl.Name))
+			sh = append(sh, fmt.Sprintf("%d:%s:%s:%v:%v:%v", g, s.op, s.cl.Name, s.fc != "", s.fs != "", s.onOther))
 		}
 	}
 	c.Shape(rkHash(append(sh, variant, policy, strings.Join(trace, ","), winner)...))
